@@ -93,7 +93,10 @@ class State(_train.Listener):
         pairs = None
         if self.mlcl is not None:
             if ids is None:
-                ids = np.arange(len(Xb)) if fam == "CategoricalModel" else _train.decode_ids(Xfull, Xb)
+                try:
+                    ids = np.arange(len(Xb)) if fam == "CategoricalModel" else _train.decode_ids(Xfull, Xb)
+                except _train.AmbiguousRows:
+                    ids = None
             if ids is None:
                 ctx.count("decorated_step_ids_undecodable")
                 return
